@@ -445,6 +445,12 @@ def canopy_cover(
         NewCond.canopy_cover_adj_ns = (
             (1.72 * NewCond.canopy_cover_ns) - (NewCond.canopy_cover_ns ** 2) + (0.3 * (NewCond.canopy_cover_ns ** 3))
         )
+        # The micro-advection polynomial exceeds 1 for canopy covers above 0.967;
+        # the adjusted cover is a fraction of the soil surface and cannot
+        if NewCond.canopy_cover_adj > 1:
+            NewCond.canopy_cover_adj = 1
+        if NewCond.canopy_cover_adj_ns > 1:
+            NewCond.canopy_cover_adj_ns = 1
 
     else:
         # No canopy outside growing season - set various values to zero
